@@ -52,3 +52,25 @@ func (p *PES) Bytes() (b []byte, hdrEnd int) {
 	hdrEnd = len(b)
 	return append(b, p.Payload...), hdrEnd
 }
+
+// PESOptionalFields returns the optional fields announced by the low six bits of the second flag byte
+// (ESCR 6, ES_rate 3, DSM_trick_mode 1, additional_copy_info 1, previous_PES_packet_CRC 2 bytes; a
+// PES_extension without optional fields of its own), each filled by fill, followed by n 0xFF stuffing bytes.
+func PESOptionalFields(flags2low6 byte, fill func(n int) []byte, stuffing int) []byte {
+	var out []byte
+	for _, f := range []struct {
+		bit  byte
+		size int
+	}{{0x20, 6}, {0x10, 3}, {0x08, 1}, {0x04, 1}, {0x02, 2}} {
+		if flags2low6&f.bit != 0 {
+			out = append(out, fill(f.size)...)
+		}
+	}
+	if flags2low6&0x01 != 0 {
+		out = append(out, 0x0e)
+	}
+	for i := 0; i < stuffing; i++ {
+		out = append(out, 0xff)
+	}
+	return out
+}
